@@ -750,6 +750,14 @@ class ExcelCompiler:
                     failed.setdefault('exceptions', {}).setdefault(
                         exc_str_key, []).append((str(addr), formula, exc_str))
 
+                # the precedents of a cell that can not be evaluated are
+                # still part of the tree
+                verified.add(addr)
+                if verify_tree and cell is not None:
+                    for needed_addr in cell.needed_addresses:
+                        if needed_addr not in verified:
+                            to_verify.append(needed_addr)
+
         return failed
 
     def formula_cells(self, sheet=None):
